@@ -381,6 +381,15 @@ class Program:
                 if f is not None: return f
                 a = s.crate_alias[crate].get(name)
                 if a is not None: return cf[a]
+                if not name.startswith('<') and '::' in name:
+                    segs = name.split('::')
+                    for k in range(1, len(segs)):
+                        t = '::'.join(segs[k:])
+                        f = cf.get(t)
+                        if f is None:
+                            a = s.crate_alias[crate].get(t)
+                            f = cf[a] if a is not None else None
+                        if f is not None and f.is_const: return f
         f = s.fns.get(name)
         if f is not None: return f
         a = s.alias.get(name)
